@@ -17,7 +17,12 @@
 //!      C19_Model.v, body = the regex-manager model fed with the touched-rule sets and per-rule
 //!      match bits observed on the DEFAULT build); the model's per-thread answers must equal the
 //!      concurrent implementation's, and for small complete runs the model's final cache must be
-//!      the implementation's dumped cache entry by entry.
+//!      the implementation's dumped cache entry by entry,
+//!   5. adds POLICY runs (protocol: `"policy": {"full", "per"}` in a run record, see
+//!      harness_sync/src/main.rs): `set_regex_discard_policy` with extreme and changing policies
+//!      before and between queries, on one thread (both builds, through Engine and Blocker) and
+//!      while other threads query; all of 1.-4. applies to them (pure policy runs give Coq cases);
+//!      a call that does not return is reported by the child's watchdog with the stuck operation.
 #[path = "../../../harness_sync/src/common.rs"]
 mod common;
 use common::*;
@@ -40,6 +45,12 @@ fn verif_dir() -> PathBuf {
 
 /// cargo build of the thread-safe harness, serialised with every other cargo build of /verif.
 fn build_sync() -> Result<PathBuf, String> {
+    // testing the harness itself: a prebuilt c19_sync (e.g. linked against a deliberately broken
+    // copy of the crate) instead of the one built from /verif/harness_sync
+    if let Ok(p) = std::env::var("C19_SYNC_EXE") {
+        eprintln!("C19: using the prebuilt thread-safe binary {} (C19_SYNC_EXE)", p);
+        return Ok(PathBuf::from(p));
+    }
     let dir = verif_dir().join("harness_sync");
     let lock_dst = dir.join("Cargo.lock");
     if !lock_dst.exists() {
@@ -93,7 +104,12 @@ fn run_sync(exe: &Path, plan: &Value, dir: &Path, tag: &str, limit: Duration) ->
                 if t0.elapsed() > limit {
                     child.kill().ok();
                     child.wait().ok();
-                    return Err(("hang".into(), format!("c19_sync did not finish within {} s (killed): deadlock or livelock", limit.as_secs())));
+                    let mut err = String::new();
+                    if let Some(mut s) = child.stderr.take() {
+                        use std::io::Read;
+                        s.read_to_string(&mut err).ok();
+                    }
+                    return Err(("hang".into(), format!("c19_sync did not finish within {} s (killed): deadlock or livelock {}", limit.as_secs(), err)));
                 }
                 std::thread::sleep(Duration::from_millis(50));
             }
@@ -125,18 +141,60 @@ fn spec_of(r: &Value) -> RunSpec {
     }
 }
 
+fn policy_of(r: &Value) -> Option<PolicyPlan> {
+    let p = r.get("policy").filter(|p| p.is_object())?;
+    let spec = spec_of(r);
+    Some(policy_plan(spec.seed, spec.queries, p["full"].as_bool().unwrap_or(false), p["per"].as_u64().unwrap_or(4) as usize))
+}
+
+/// The record a failure of this run is replayed from.
+fn replay_of(run: &Value) -> Value {
+    let spec = spec_of(run);
+    let mut v = json!({"seed": spec.seed, "mode": spec.mode.name(), "threads": spec.threads, "queries": spec.queries, "noise": run["noise"], "repeat": 10});
+    if run.get("policy").map(|p| p.is_object()).unwrap_or(false) {
+        v["policy"] = run["policy"].clone();
+    }
+    v
+}
+
+/// First `C19-STUCK {json}` line of the child's stderr: (run index, description of the operation).
+fn stuck_op(msg: &str) -> Option<(usize, String)> {
+    let at = msg.find("C19-STUCK ")?;
+    let line = msg[at + 10..].lines().next()?;
+    let v: Value = serde_json::from_str(line).ok()?;
+    Some((v["run"].as_u64()? as usize, format!("thread {}: {} (not returned after {} s)", v["thread"], v["op"].as_str().unwrap_or("?"), v["seconds"])))
+}
+
 struct DefaultSide {
     digests: Vec<String>,
     retag: String,
     ms: u128,
+    /// policy runs: per-thread digests of the sequential policy walk on the default build, panics
+    policy_digests: Option<Vec<String>>,
+    policy_failures: Vec<String>,
 }
 
 /// The same run on the default build, one thread.
-fn default_side(spec: &RunSpec) -> DefaultSide {
+fn default_side(spec: &RunSpec, policy: Option<&PolicyPlan>) -> DefaultSide {
     let t0 = Instant::now();
     let w = gen_workload(spec);
     let mut e = build_engine(&w);
     let digests = w.queries.iter().map(|qs| format!("{:016x}", run_sequential(&e, qs, false).0)).collect();
+    // policy run: the same sequential walk through the script on the single-thread build
+    let mut policy_digests = None;
+    let mut policy_failures = vec![];
+    if let Some(plan) = policy {
+        let mut pe = build_engine(&w);
+        let (pa, set_panics) = policy_sequential(&mut pe, &w, plan, &mut |_| {});
+        policy_failures.extend(set_panics);
+        for (ti, v) in pa.iter().enumerate() {
+            if let Some(qi) = v.iter().position(|a| a.starts_with("PANIC")) {
+                let k = qi / plan.per;
+                policy_failures.push(format!("thread list {} query {} ({}) in phase {} under policy {}: {}", ti, qi, w.queries[ti][qi].describe(), k, plan.script[k.min(plan.script.len() - 1)].describe(), v[qi]));
+            }
+        }
+        policy_digests = Some(pa.iter().map(|v| format!("{:016x}", digest_of(v))).collect());
+    }
     // same post phase as the thread-safe side, so that the engines have the same history
     e.verif_blocker().set_regex_discard_policy(lenient_policy());
     for qs in &w.queries {
@@ -144,8 +202,12 @@ fn default_side(spec: &RunSpec) -> DefaultSide {
             let _ = answer(&e, q);
         }
     }
+    if policy.is_some() {
+        e.set_regex_discard_policy(adblock::regex_manager::RegexManagerDiscardPolicy { cleanup_interval: extreme(6), discard_unused_time: extreme(6) });
+        e.set_regex_discard_policy(adblock::regex_manager::RegexManagerDiscardPolicy { cleanup_interval: extreme(1), discard_unused_time: extreme(6) });
+    }
     let retag = format!("{:016x}", retag_and_query(&mut e, &w));
-    DefaultSide { digests, retag, ms: t0.elapsed().as_millis() }
+    DefaultSide { digests, retag, ms: t0.elapsed().as_millis(), policy_digests, policy_failures }
 }
 
 /// Expand a lock-acquisition order into a schedule of the model, interleaving the Post events of
@@ -300,6 +362,28 @@ fn judge(res: &Value, d: &DefaultSide, replay: &Value) -> Outcome {
         let t = seq.iter().zip(d.digests.iter()).position(|(a, b)| a != b).unwrap_or(0);
         f.push((format!("thread-safe and single-thread builds answer differently (sequential, thread list {})", t), replay.clone()));
     }
+    // policy runs: the sequential walk through the script, on both builds
+    if let Some(pd) = &d.policy_digests {
+        let ps = &res["policy"]["sequential"];
+        if res.get("policy").is_none() {
+            f.push(("policy run: the thread-safe side returned no policy record".to_string(), replay.clone()));
+        }
+        if !ps["set_panics"].as_array().map(|a| a.is_empty()).unwrap_or(true) {
+            f.push((format!("set_regex_discard_policy panicked (thread-safe build, one thread): {}", ps["set_panics"][0]), replay.clone()));
+        }
+        if !ps["mismatches"].as_array().map(|a| a.is_empty()).unwrap_or(true) {
+            f.push((format!("answer after a policy change differs from the reference (thread-safe build, one thread): {}", ps["mismatches"][0]), replay.clone()));
+        } else if strs(&ps["digest"]) != seq {
+            f.push(("answers of the sequential policy walk differ from the reference (thread-safe build)".to_string(), replay.clone()));
+        }
+        for m in d.policy_failures.iter().take(2) {
+            f.push((format!("single-thread build, policy walk: {}", m), replay.clone()));
+        }
+        if pd != &d.digests {
+            let t = pd.iter().zip(d.digests.iter()).position(|(a, b)| a != b).unwrap_or(0);
+            f.push((format!("single-thread build: answers after policy changes differ from the reference (thread list {})", t), replay.clone()));
+        }
+    }
     if let Some(e) = res.get("retag_error") {
         f.push((format!("exclusive phase after the run failed: {}", e), replay.clone()));
     } else if res["retag_digest"].as_str() != Some(d.retag.as_str()) {
@@ -351,13 +435,27 @@ fn main() {
         let rp = &v["replay"];
         let spec = spec_of(rp);
         let repeat = rp["repeat"].as_u64().unwrap_or(10);
-        let plan = json!({"stall_seconds": 300, "parallel": 1, "runs": [{"seed": spec.seed, "mode": spec.mode.name(), "threads": spec.threads,
-            "queries": spec.queries, "prefix": 0, "noise": rp["noise"].as_bool().unwrap_or(true), "repeat": repeat}]});
-        let d = default_side(&spec);
+        let mut run = json!({"seed": spec.seed, "mode": spec.mode.name(), "threads": spec.threads,
+            "queries": spec.queries, "prefix": 0, "noise": rp["noise"].as_bool().unwrap_or(true), "repeat": repeat});
+        if rp.get("policy").map(|p| p.is_object()).unwrap_or(false) {
+            run["policy"] = rp["policy"].clone();
+        }
+        let policy = policy_of(&run);
+        if let Some(pl) = &policy {
+            println!("policy run: {} phases of {} queries per thread", pl.script.len(), pl.per);
+            for (k, ph) in pl.script.iter().enumerate() {
+                println!("  phase {}: {}", k, ph.describe());
+            }
+        }
+        let plan = json!({"stall_seconds": 300, "op_seconds": 60, "parallel": 1, "runs": [run]});
+        let d = default_side(&spec, policy.as_ref());
         let mut bad = 0;
         match run_sync(&exe, &plan, &a.out, "replay", Duration::from_secs(3000)) {
             Err((c, m)) => {
                 println!("run failed [{}]: {}", c, m);
+                if let Some((_, op)) = stuck_op(&m) {
+                    println!("stuck operation: {}", op);
+                }
                 bad += 1;
             }
             Ok(rs) => {
@@ -406,17 +504,32 @@ fn main() {
         let q = r.range(2, 5);
         runs.push(json!({"seed": r.next() >> 12, "mode": "pure", "threads": t, "queries": q, "prefix": t * q, "noise": false, "size": "tiny"}));
     }
-    let plan = json!({"stall_seconds": if thorough { 600 } else { 120 }, "parallel": 8, "runs": runs});
+    // policy runs: `full` = 50 phases x 4 queries, both policy fields walk through all 49 ordered
+    // pairs of the 7 extreme durations; the others 6-24 random phases of 2-6 queries
+    let (n_full, n_rand) = if thorough { (env_n("C19_POLICY_FULL", 40), env_n("C19_POLICY_RANDOM", 200)) } else { (env_n("C19_POLICY_FULL", 8), env_n("C19_POLICY_RANDOM", 24)) };
+    for i in 0..(n_full + n_rand) {
+        let full = i < n_full;
+        let mode = if i % 2 == 0 { Mode::Pure } else { Mode::Rich };
+        let t = r.pick(&[2usize, 3, 4, 8, 8, 16]);
+        let (per, phases) = if full { (4, 50) } else { (r.range(2, 6), r.range(6, 24)) };
+        runs.push(json!({"seed": r.next() >> 12, "mode": mode.name(), "threads": t, "queries": per * phases, "prefix": prefix, "noise": false,
+            "size": "policy", "policy": {"full": full, "per": per}}));
+    }
+    let plan = json!({"stall_seconds": if thorough { 600 } else { 120 }, "op_seconds": if thorough { 300 } else { 90 }, "parallel": 8, "runs": runs});
 
     let mut cs = Cases::new(&a.out, "C19_Model");
     let mut sm = Summary::default();
-    sm.rule = "runs = seeded rule lists (rich: 40-120 network rules, 80% regex patterns, exceptions/important/csp/generichide/removeparam/redirect/tag/domain options + cosmetic rules, optimised or not; pure: 6-16 option-free regex rules block/csp/generichide) x N threads x M queries over a pool of 8-40 requests (network, network-subset, csp, url_cosmetic_resources), discard policy cleanup_interval=1ns discard_unused_time=0 (switched to 500us at random), lock-taking noise ops; Coq cases only from pure runs: (a) big runs: first 48 tickets expanded to a random fine-grained schedule, (b) tiny runs (2-4 threads x 2-5 queries) replayed completely incl. final cache; non-trivial = at least two threads in the schedule and at least one regex rule consulted and at least one answer bit true".into();
+    sm.rule = "runs = seeded rule lists (rich: 40-120 network rules, 80% regex patterns, exceptions/important/csp/generichide/removeparam/redirect/tag/domain options + cosmetic rules, optimised or not; pure: 6-16 option-free regex rules block/csp/generichide) x N threads x M queries over a pool of 8-40 requests (network, network-subset, csp, url_cosmetic_resources), discard policy cleanup_interval=1ns discard_unused_time=0 (switched to 500us at random), lock-taking noise ops; POLICY runs (no noise): the queries are cut into phases, phase k starts with set_regex_discard_policy of the k-th policy of a seeded script with cleanup_interval and discard_unused_time drawn from {0, 1 ns, 1 ms, 1 s, 1 h, u64::MAX/2 s, Duration::MAX} (full scripts: 50 phases, each field walks through all 49 ordered pairs = every shorter-after-longer, longer-after-shorter and same-twice; random scripts: 6-24 phases; a quarter of the phases set the policy twice in a row, a third once more between the setter's queries), walked sequentially on both builds (before the first and between later queries, through Engine (&mut) and Blocker (&self)) and on the shared engine where one thread in turn sets the policy while the others already run the phase's queries; every answer = sequential reference, no panic, no poisoning (other threads query afterwards), stuck calls reported by the watchdog with the operation; Coq cases only from pure runs (incl. pure policy runs): (a) big runs: first 48 tickets expanded to a random fine-grained schedule, (b) tiny runs (2-4 threads x 2-5 queries) replayed completely incl. final cache; non-trivial = at least two threads in the schedule and at least one regex rule consulted and at least one answer bit true".into();
 
     let t_sync = Instant::now();
     let results = match run_sync(&exe, &plan, &a.out, "main", Duration::from_secs(if thorough { 6000 } else { 900 })) {
         Ok(v) => v,
         Err((class, m)) => {
-            sm.failure(None, &format!("thread-safe run failed [{}]: {}", class, m), json!({"kind": class, "seed": a.seed, "tier": a.tier, "note": "whole plan; re-run ./check C19 with this seed"}));
+            match stuck_op(&m) {
+                // the watchdog named the operation that does not return: replay that run
+                Some((ri, op)) if ri < runs.len() => sm.failure(None, &format!("thread-safe run blocked [{}]: {}; {}", class, op, m.lines().last().unwrap_or("")), replay_of(&runs[ri])),
+                _ => sm.failure(None, &format!("thread-safe run failed [{}]: {}", class, m), json!({"kind": class, "seed": a.seed, "tier": a.tier, "note": "whole plan; re-run ./check C19 with this seed"})),
+            }
             cs.finish();
             sm.write(&a.out, &cs);
             return;
@@ -439,7 +552,7 @@ fn main() {
                 if i >= runs.len() {
                     break;
                 }
-                let d = default_side(&spec_of(&runs[i]));
+                let d = default_side(&spec_of(&runs[i]), policy_of(&runs[i]).as_ref());
                 dsides.lock().unwrap().push((i, d));
             });
         }
@@ -457,12 +570,42 @@ fn main() {
     let mut tot_switches = 0u64;
     let mut threads_hist: std::collections::BTreeMap<usize, u64> = Default::default();
     let mut located = false;
+    let mut policy_pairs: BTreeSet<(usize, usize)> = BTreeSet::new();
+    let mut trans_ci: BTreeSet<(usize, usize)> = BTreeSet::new();
+    let mut trans_du: BTreeSet<(usize, usize)> = BTreeSet::new();
+    let (mut tot_policy_seq, mut tot_policy_conc) = (0u64, 0u64);
     for (i, res) in results.iter().enumerate() {
         let run = &runs[i.min(runs.len() - 1)];
         let spec = spec_of(run);
         let d = &dsides[i].1;
-        let replay = json!({"seed": spec.seed, "mode": spec.mode.name(), "threads": spec.threads, "queries": spec.queries, "noise": run["noise"], "repeat": 10});
+        let replay = replay_of(run);
         let o = judge(res, d, &replay);
+        if let Some(pl) = policy_of(run) {
+            // generator statistics of the policy inputs
+            cs.stat(if run["policy"]["full"] == true { "policy_run_full_script" } else { "policy_run_random_script" });
+            for (k, ph) in pl.script.iter().enumerate() {
+                cs.stat("policy_phase");
+                if ph.twice {
+                    cs.stat("policy_set_twice_in_a_row");
+                }
+                if ph.mid && pl.per > 1 {
+                    cs.stat("policy_set_again_between_queries");
+                }
+                if ph.ci == 0 || ph.ci >= 5 || ph.du == 0 || ph.du >= 5 {
+                    cs.stat("policy_with_0_or_huge_duration");
+                }
+                policy_pairs.insert((ph.ci, ph.du));
+                if k > 0 {
+                    let pv = &pl.script[k - 1];
+                    for (name, a, b, seen) in [("cleanup_interval", pv.ci, ph.ci, &mut trans_ci), ("discard_unused_time", pv.du, ph.du, &mut trans_du)] {
+                        seen.insert((a, b));
+                        cs.stat(&format!("policy_{}_{}", name, if b < a { "shorter_after_longer" } else if b > a { "longer_after_shorter" } else { "same_again" }));
+                    }
+                }
+            }
+            tot_policy_seq += res["policy"]["sequential"]["set_calls"].as_u64().unwrap_or(0);
+            tot_policy_conc += res["policy"]["concurrent_set_calls"].as_u64().unwrap_or(0);
+        }
         sm.oracle_evaluations += (spec.threads * spec.queries) as u64 * 3; // default seq, sync seq, sync concurrent
         tot_q += (spec.threads * spec.queries) as u64;
         tot_noise += res["noise_ops"].as_u64().unwrap_or(0);
@@ -559,6 +702,17 @@ fn main() {
         }
         cs.case(expr, desc, nontrivial);
         }
+    }
+    sm.extra.insert("policy_set_calls_sequential_per_build".into(), json!(tot_policy_seq));
+    sm.extra.insert("policy_set_calls_while_other_threads_query".into(), json!(tot_policy_conc));
+    sm.extra.insert("policy_distinct_pairs_cleanup_x_discard_of_49".into(), json!(policy_pairs.len()));
+    sm.extra.insert("policy_distinct_ordered_changes_cleanup_interval_of_49".into(), json!(trans_ci.len()));
+    sm.extra.insert("policy_distinct_ordered_changes_discard_unused_time_of_49".into(), json!(trans_du.len()));
+    for _ in 0..tot_policy_conc {
+        cs.stat("policy_set_call_while_other_threads_query");
+    }
+    for _ in 0..tot_policy_seq {
+        cs.stat("policy_set_call_sequential");
     }
     sm.extra.insert("queries_per_configuration".into(), json!(tot_q));
     sm.extra.insert("runs".into(), json!(results.len()));
